@@ -258,14 +258,19 @@ func main() {
 			{Name: "multi/3pool", Tiers: "quick", Depth: 3, NewModel: func() hist.Model { return newModel(multiOps([]rspec{rA, rAB, rD}, false)) }},
 			{Name: "load", Tiers: "quick", Depth: 3, NewModel: load},
 
-			{Name: "ranges/2rules@5", Tiers: "thorough", Depth: 5, NewModel: rangesScope(ab, vll)},
-			{Name: "ranges/3rules@4", Tiers: "thorough", Depth: 4, NewModel: rangesScope(aba, vll)},
-			{Name: "override@3", Tiers: "thorough", Depth: 3, NewModel: overrideScope(aba, few, []int{1, 2}, false)},
-			{Name: "override/allranges@3", Tiers: "thorough", Depth: 3, NewModel: overrideScope([][2]string{{"g1", "a"}, {"g2", "a"}}, allRanges, []int{1}, false)},
-			{Name: "override/4keys@3", Tiers: "thorough", Depth: 3, NewModel: overrideScope(abab, few[:3], []int{1}, false)},
-			{Name: "after-reject@4", Tiers: "thorough", Depth: 4, NewModel: overrideScope([][2]string{{"g1", "a"}, {"g2", "a"}}, few[:2], []int{1}, true)},
-			{Name: "multi@3", Tiers: "thorough", Depth: 3, NewModel: func() hist.Model { return newModel(multiOps(pool, true)) }},
 			{Name: "load@4", Tiers: "thorough", Depth: 4, NewModel: load},
+			{Name: "override/counts@2", Tiers: "thorough", Depth: 2, NewModel: overrideScope(aba, few, []int{1, 2}, false)},
+			{Name: "multi@3", Tiers: "thorough", Depth: 3, NewModel: func() hist.Model { return newModel(multiOps(pool, true)) }},
+			{Name: "ranges/3rules@3", Tiers: "thorough", Depth: 3, NewModel: rangesScope(aba, vll)},
+			{Name: "ranges/2rules@5", Tiers: "thorough", Depth: 5, NewModel: rangesScope(ab, vll)},
+			{Name: "after-reject@4", Tiers: "thorough", Depth: 4, NewModel: overrideScope([][2]string{{"g1", "a"}, {"g2", "a"}}, few[:2], []int{1}, true)},
+			{Name: "override/4keys@3", Tiers: "thorough", Depth: 3, NewModel: overrideScope(abab, few[:3], []int{1}, false)},
+			{Name: "ranges/3rules/vl@4", Tiers: "thorough", Depth: 4, NewModel: rangesScope(aba, vl)},
+			{Name: "override@3", Tiers: "thorough", Depth: 3, NewModel: overrideScope(aba, few, []int{1}, false)},
+			{Name: "override/allranges@3", Tiers: "thorough", Depth: 3, NewModel: func() hist.Model {
+				return newModel(alphabet{keys: [][2]string{{"g1", "a"}, {"g2", "a"}}, ranges: allRanges, indexes: []int{0, 1}, overrides: []bool{false, true}, roles: vl,
+					counts: []int{1}, groupOps: []string{"g1", "g2", "pd"}}.ops())
+			}},
 		},
 		Rule: "breadth-first over all sequences of SetRule/DeleteRule/SetRules/Batch/SetRuleGroup/DeleteRuleGroup/SetGroupBundle/SetAllGroupBundles/DeleteGroupBundle of the scope's alphabet " +
 			"(groups g1,g2,pd x ids x ranges over the key points \"\",10,20,30 x index x override x role x count), states deduplicated by the reference configuration; after every operation " +
